@@ -231,6 +231,7 @@ type vfClient struct {
 	sess   *Session
 	frames []*vfFrame
 	seen   int // frames already consumed by Take
+	mark   int // harness bookmark into frames
 	nextID int
 	gate   chan struct{} // when non-nil every Send waits for a token (slow consumer)
 	closed bool
